@@ -53,6 +53,17 @@ def core_plain(props):
         out.append(('bind', 'x', None, (b, ('or', X, p0), ('EX', X))))
     return out
 
+def siblings(props):
+    """formulas whose quantifiers are siblings (more quantifier occurrences than nesting depth)"""
+    p0, p1 = ('prop', props[0]), ('prop', props[-1])
+    X, XX = ('var', 'x'), ('var', 'xx')
+    return [('or', ('bind', 'x', None, ('AX', X)), ('bind', 'x', None, ('AG', ('EF', ('and', X, p0))))),
+            ('and', ('exists', 'x', None, ('jump', 'x', p0)), ('forall', 'x', None, ('EF', X))),
+            ('EU', ('bind', 'x', None, ('EX', X)), ('exists', 'x', None, ('and', X, p1))),
+            ('or', ('or', ('bind', 'x', None, ('EX', ('not', X))), ('forall', 'x', None, ('or', X, p0))), ('exists', 'x', None, ('jump', 'x', ('AX', X)))),
+            ('bind', 'x', None, ('and', ('exists', 'xx', None, ('jump', 'xx', ('EX', X))), ('forall', 'xx', None, ('or', ('EF', XX), X)))),
+            ('imp', ('bind', 'x', None, ('AX', X)), ('bind', 'x', None, ('AX', X)))]
+
 def subformulas(phi):
     yield phi
     op = phi[0]
